@@ -48,6 +48,11 @@ def jobs_for(tier, rng):
         jobs.append({"mdp": m, "kind": "VI", "gamma": GAMMAS[k % 3], "eps": [1, 6], "test": "span", "calls": [1],
                      "mbs": rng.choice([1024, 1024, 500]),
                      "injects": [{"v": gen.rand_values(rng, m["ns"], vmax=9)} for _ in range(2)], "tag": f"large{k}"})
+    # tens of thousands of states (many batches per device); the trace is reduced exactly (solver_worker.quotient)
+    for N in ([20100] if tier == "quick" else [20100, 33000, 70001]):
+        jobs.append({"mdp": gen.corridors(rng, N, [3, 5, 2]), "kind": "VI", "gamma": [1, 2], "eps": [1, 4], "test": "span",
+                     "calls": [4, 3], "mbs": rng.choice([1024, 3000]), "quotient": True, "must_complete": True,
+                     "tag": f"corridors{N}"})
     return jobs
 
 
